@@ -655,13 +655,13 @@ def unpackDef (ps : Nat) (data : Bytes) (pos : Nat) : Def → Option (Val × Nat
     | _ =>
       match unpackFields ps data pos (kind == .union) packed fs 0 [] with
       | some (ns, res) =>
-        let len := padTail packed A (lenLoop ps (kind == .union) packed fs (res.map (fun r => some r.1)) 0)
-        some (.inst ns len, len, assemble (kind == .union) packed A (zipAligns ps fs (res.map (·.2))))
+        let len := padTail packed A (lenLoop ps (kind == .union) packed fs (res.map (fun r => some r.2.1)) 0)
+        some (.inst ns len, len, assemble (kind == .union) packed A (zipAligns ps fs (res.map (·.2.2))))
       | none => none
 /-- the `for f in self.fields` loop of `StructCore.unpack` (field alignment relative to the start
-    `base` of the structure); result: namespace and, per field, (size, mask) -/
+    `base` of the structure); result: namespace and, per field, (value, size, mask) -/
 def unpackFields (ps : Nat) (data : Bytes) (base : Nat) (isUnion packed : Bool) :
-    List Field → Nat → NS → Option (NS × List (Nat × Bytes))
+    List Field → Nat → NS → Option (NS × List (Val × Nat × Bytes))
   | [], _, ns => some (ns, [])
   | f :: fs, rel, ns =>
     let rel1 := if !isUnion && !packed then alignTo rel (f.alignV ps) else rel
@@ -672,7 +672,7 @@ def unpackFields (ps : Nat) (data : Bytes) (base : Nat) (isUnion packed : Bool) 
       let rel2 := if isUnion then rel1 else rel1 + sz
       match unpackFields ps data base isUnion packed fs rel2 ns1 with
       | none => none
-      | some (ns2, res) => some (ns2, (sz, m) :: res)
+      | some (ns2, res) => some (ns2, (v, sz, m) :: res)
 end
 
 /-! ## pack -/
@@ -727,7 +727,13 @@ def packOne (ps : Nat) : Def → Val → Option Bytes
   | .mk kind packed fs, v =>
     let A := if packed then 1 else maxList (alignVs ps fs)
     match v with
-    | .inst ns _ =>
+    | .inst ns l =>
+      if kind == .typedef then
+        -- the instance is of the aggregate the typedef names: it packs itself
+        (match fs with
+         | .nest _ ty _ :: _ => packOne ps ty (.inst ns l)
+         | _ => none)
+      else
       (match collect ns fs with
        | some vals =>
          (match packFields ps fs vals with
